@@ -3,6 +3,7 @@ import TexcraftModel.Lemmas.C10Ser
 import TexcraftModel.Lemmas.C10Cst
 import TexcraftModel.Lemmas.C10CstRt
 import TexcraftModel.Lemmas.C10Num
+import TexcraftModel.Lemmas.C10Body
 
 /-!
 # C10 — property theorems (TFM reader front end)
@@ -12,6 +13,8 @@ import TexcraftModel.Lemmas.C10Num
 
 * `raw_total`         every byte string: a layout or one of the twelve documented errors, never a panic
 * `raw_bounds`        an accepted file: the eleven sub-files tile `[0, 4·lf)`, inside the file
+* `body_total`, `reader_total`  `from_raw_file` never indexes outside a sub-file of an accepted
+                      layout; hence the whole of `File::deserialize` is total
 * `raw_junk`          the "extra junk" warning is issued exactly when the file is longer than `4·lf`
 * `layout_roundtrip`  every consistent size table followed by a long enough body is accepted,
                       with the layout the table describes (the reader accepts what a writer emits,
@@ -45,7 +48,7 @@ exactly the one described by the size table. -/
 private theorem raw_cases (b : List Nat) :
     (∃ e j, rawDeserialize b = .err e j) ∨
     (∃ s bc ec, rawDeserialize b = .ok ⟨s, bc, ec, slicesFrom 0 s.parts⟩ (decide (4 * s.lf < b.length)) ∧
-      s.lf = sumI s.parts ∧ (∀ u ∈ s.parts, 0 ≤ u) ∧ 4 * s.lf ≤ b.length) := by
+      s.lf = sumI s.parts ∧ (∀ u ∈ s.parts, 0 ≤ u) ∧ 4 * s.lf ≤ b.length ∧ 2 ≤ s.lh ∧ s.InRange) := by
   unfold rawDeserialize
   generalize hh : b.take 24 = hdr
   match hdr, hh with
@@ -81,9 +84,9 @@ private theorem raw_cases (b : List Nat) :
       apply propext
       constructor <;> intro h <;> omega
     rw [hj]
-    rcases checks_spec s b.length (decide (4 * s.lf < b.length)) hr hfit with ⟨e, he⟩ | ⟨hok, h5, h6⟩
+    rcases checks_spec s b.length (decide (4 * s.lf < b.length)) hr hfit with ⟨e, he⟩ | ⟨hok, h5, h6, h7⟩
     · left; exact ⟨e, _, he⟩
-    · right; exact ⟨s, _, _, hok, h5, h6, hfit⟩
+    · right; exact ⟨s, _, _, hok, h5, h6, hfit, h7, hr⟩
 
 /-- **Totality.** On every byte string the repaired front end returns a layout or one of the
 documented errors; none of the four panic sites (`get(0..24).expect`, the sixteen-bit sums,
@@ -96,7 +99,7 @@ theorem raw_total (b : List Nat) (site : Site) : rawDeserialize b ≠ .panic sit
 `[0, 4·lf)`, and that range lies inside the file: every later `&raw_file.xxx[..]` is in bounds. -/
 theorem raw_bounds (b : List Nat) (L : RawLayout) (junk : Bool) (h : rawDeserialize b = .ok L junk) :
     LayoutOK b.length L ∧ L.slices.length = 11 ∧ L.slices.head? = some ⟨0, 24⟩ := by
-  rcases raw_cases b with ⟨e, j, h'⟩ | ⟨s, bc, ec, h', hlf, hnn, hfit⟩
+  rcases raw_cases b with ⟨e, j, h'⟩ | ⟨s, bc, ec, h', hlf, hnn, hfit, _, _⟩
   · rw [h'] at h; simp at h
   · rw [h'] at h
     simp only [Outcome.ok.injEq] at h
@@ -124,6 +127,45 @@ theorem raw_junk (b : List Nat) (L : RawLayout) (junk : Bool) (h : rawDeserializ
 example : (match rawDeserialize ([0, 12, 0, 2, 0, 1, 0, 0, 0, 1, 0, 1, 0, 1, 0, 1, 0, 0, 0, 0, 0, 0, 0, 0] ++
     List.replicate 24 0) with | .ok _ false => true | _ => false) = true := by decide
 
+/-! ## The whole reader: `from_raw_file` on an accepted layout -/
+
+/-- **No index leaves its sub-file.** For every file the front end accepts, `from_raw_file`
+(header words and strings with their length-byte guards, char-info words, the four dimension
+tables, the lig/kern program with its boundary words, kerns, extensible recipes, parameters)
+reads every sub-file without indexing outside it: each sub-file is a whole number of words,
+the header has at least two, and the lig/kern table at most 2^15. -/
+theorem body_total (b : List Nat) (L : RawLayout) (junk : Bool) (h : rawDeserialize b = .ok L junk) :
+    ∃ f, Body.fromSlices L.beginChar L.endChar (L.slices.map (Body.slice b)) = some f := by
+  rcases raw_cases b with ⟨e, j, h'⟩ | ⟨s, bc, ec, h', hlf, hnn, hfit, hlh, hr⟩
+  · rw [h'] at h; simp at h
+  · rw [h'] at h
+    simp only [Outcome.ok.injEq] at h
+    obtain ⟨hL, _⟩ := h
+    subst hL
+    have hl := Body.slices_lengths b s.parts 0 hnn (by omega)
+    have hnl := hr s.nl (by simp [Sizes.toList])
+    simp only [InI16] at hnl
+    exact Body.fromSlices_ok _ _ 6 s.lh (s.ec - s.bc + 1) s.nw s.nh s.nd s.ni s.nl s.nk s.ne s.np _ hl hlh (by omega)
+
+/-- **The TFM reader is total.** `File::deserialize` — the front end followed by
+`from_raw_file` — returns a file or one of the twelve documented errors on every byte string;
+no panic site of deserialize.rs (the slice and `expect` sites of the front end, the word
+indexing `b[0..3]`/`&b[4..]`, the string guards `b.get(1).expect` and `len - 2`, the boundary
+words `&b[r..]` and `instructions.len() - 1`) is reachable. -/
+theorem reader_total (b : List Nat) : Body.readFile b ≠ .panic := by
+  unfold Body.readFile
+  cases hraw : rawDeserialize b with
+  | panic site => exact absurd hraw (raw_total b site)
+  | err e j => simp
+  | ok L j =>
+    obtain ⟨f, hf⟩ := body_total b L j hraw
+    simp [hf]
+
+/-- Non-vacuity: the minimal font is read into a file with one width, height, depth, italic. -/
+example : (match Body.readFile ([0, 12, 0, 2, 0, 1, 0, 0, 0, 1, 0, 1, 0, 1, 0, 1, 0, 0, 0, 0, 0, 0, 0, 0] ++
+    List.replicate 24 0) with | .ok f false => f.widths.length == 1 && f.chars.length == 0 | _ => false) = true := by
+  decide
+
 /-! ## What a writer emits is accepted -/
 
 private theorem i16OfBytes_toBytes (x : Int) (h0 : 0 ≤ x) (h1 : x ≤ 32767) :
@@ -141,7 +183,7 @@ private theorem checks_consistent (s : Sizes) (hc : Consistent s) (len : Nat) (j
     unfold InI16
     rcases hx with rfl | rfl | rfl | rfl | rfl | rfl | rfl | rfl | rfl | rfl | rfl | rfl <;> omega
   have hsum := sumI_parts s
-  rcases checks_spec s len junk hr hfit with ⟨e, he⟩ | ⟨hok, _, _⟩
+  rcases checks_spec s len junk hr hfit with ⟨e, he⟩ | ⟨hok, _, _, _⟩
   · -- no error branch is taken: go through the same conditions
     exfalso
     have hv := validLf32 s hr
@@ -276,6 +318,21 @@ example : serializeSizes ⟨238, some (0, 255), 256, 16, 16, 64, 31130, 258, 0, 
 /-- C10-m's witness: 16370 steps with 16370 distinct kerns. -/
 example : serializeSizes ⟨0, some (97, 97), 2, 1, 1, 1, 16370, 0, 16370, 0, 0⟩ = .panic .lfOverflow := by decide
 
+/-- **The reader accepts every serialised file, bodies included.** For a `ShapeOK` shape, the
+size table `serialize` writes followed by a body of the size it writes is read by the *whole*
+`File::deserialize` — front end and `from_raw_file` — into a file, without error, panic or
+junk warning. -/
+theorem reader_accepts_serialized (f : FileShape) (h : ShapeOK f) (s : Sizes)
+    (hs : serializeSizes f = .ok s) (body : List Nat) (hb : body.length = bodyBytes f) :
+    ∃ file, Body.readFile (headerBytes s ++ body) = .ok file false := by
+  have hraw := raw_accepts_serialized f h s hs body hb
+  obtain ⟨file, hf⟩ := body_total _ _ _ hraw
+  refine ⟨file, ?_⟩
+  unfold Body.readFile
+  rw [hraw]
+  simp only []
+  rw [hf]
+
 /-! ## The PL lexer / CST builder (`pl/cst.rs`) -/
 
 /-- **Every iteration of `parse`'s main loop consumes at least one character** (a
@@ -403,6 +460,23 @@ theorem clamp_tag_total (nl ne : Nat) (ex : Nat → Bool) (t t' : Tag) (h : clam
     split at h
     · simp at h
     · simp at h; subst h; exact ⟨rfl, by simp only [TagOK]; omega⟩
+
+/-- The lig-tag clamp is exact and safe: a tag survives exactly when `unpackEntry` returns an
+entry point, and that entry point addresses an instruction of the program (so every later
+walk `instructions_for_entrypoint(e)` starts inside the table). -/
+theorem clamp_lig_exact (nl e : Nat) (redirect : Option Nat) (u : Nat)
+    (h : unpackEntry nl e redirect = some u) : u < nl ∧ e < nl := by
+  unfold unpackEntry at h
+  split at h
+  · simp at h
+  · rename_i he
+    cases redirect with
+    | none => simp at h; omega
+    | some t =>
+      simp only [] at h
+      split at h
+      · simp at h; omega
+      · simp at h
 
 /-- A surviving extensible piece is an existing character. -/
 theorem clamp_piece_total (ex : Nat → Bool) (p : Option Nat) (c : Nat) (h : clampPiece ex p = some c) :
